@@ -158,11 +158,51 @@ PROPERTIES["C17"] = {
     "outside": "failure isolation and reconnect scheduling in the socket core (async event loop)",
 }
 
+PROPERTIES["C04"] = {
+    "mirsym": [
+        M("c04_cut_independence", "d_c04", "cut_independence",
+          {"quick": "4 peer transcripts (v3 NULL seen by server with identity / by client, ZMTP/2.0 with identity, v3 PLAIN) each followed by 3 data frames (MORE flag, payload and identity bytes symbolic); every single cut position 0..len; engine output (actions, sent bytes, leftover) compared with the uncut delivery",
+           "thorough": "same transcripts, every pair of cut positions c1 <= c2 (3 reads)"},
+          params={"quick": {"cuts": 1}, "thorough": {"cuts": 2}}, budget={"quick": 400, "thorough": 3000},
+          required_covers=["c04.cut-inside-handshake", "c04.data-delivered"]),
+    ],
+    "assumptions": MIRSYM_TRUST,
+    "manifest": {
+        "engine": "mirsym",
+        "technique": "symbolic execution of the sans-IO engine's MIR (z3): differential run of the same transcript under every segmentation",
+        "text": "For four honest peer transcripts with symbolic identity/payload bytes, the sequence of HandshakeComplete/DeliverMessage actions, the bytes sent and the unconsumed residue are identical for every segmentation into 2 (quick) or 3 (thorough) reads, including cuts inside the greeting, inside frame headers and exactly at the end of the handshake; data sharing a read with the last handshake byte is emitted by the engine.",
+        "design_ref": "DESIGN.md §5 C04",
+        "note": "Engine level only. NOT claimed: what the tokio session actor / io_uring handler do with the engine's output (apply_engine_output_handshake ignores DeliverMessage: see DESIGN.md findings), kernel read scheduling, CURVE/NOISE transcripts.",
+    },
+    "outside": "session actor and io_uring handler consumption of engine output; CURVE/NOISE transcripts",
+}
+
+PROPERTIES["C19"] = {
+    "mirsym": [
+        M("c19_heartbeat_timeline", "d_c19", "heartbeat_timeline",
+          {"quick": "HEARTBEAT_IVL and HEARTBEAT_TIMEOUT any 1..2^31-1 ms (symbolic), clock = symbolic non-decreasing instants shared with Instant::now(); all timelines of 4 events from {tick, inbound data, inbound PING with 0- or 2-byte symbolic context, inbound PONG}",
+           "thorough": "timelines of 5 events, PING contexts of 0, 2 and 16 bytes"},
+          params={"quick": {"events": 4, "ctx_lens": [0, 2]}, "thorough": {"events": 5, "ctx_lens": [0, 2, 16]}},
+          budget={"quick": 400, "thorough": 3000},
+          required_covers=["c19.ping-sent", "c19.pong-echo", "c19.timeout"]),
+        M("c19_v2_never_pings", "d_c19", "v2_never_pings", "ZMTP/2.0 session, 3 ticks at arbitrary instants, any IVL/TIMEOUT",
+          budget={"quick": 60, "thorough": 60}, required_covers=["c19.v2-ticks"]),
+    ],
+    "assumptions": MIRSYM_TRUST + ["Instant/Duration are modelled as 128-bit nanosecond counts with std's saturating/checked semantics"],
+    "manifest": {
+        "engine": "mirsym",
+        "technique": "symbolic execution of the engine's heartbeat code (MIR, z3) with time as a solver variable, compared against a reference automaton",
+        "text": "For all (IVL, TIMEOUT) and all timelines within the bound: a PING is sent at a tick iff none is outstanding and at least IVL elapsed since the last activity; Timeout is raised only with a PING outstanding for at least TIMEOUT and never after the peer answered or sent any frame; every inbound PING is answered by exactly one PONG with identical context; nothing is emitted on ZMTP/2.0.",
+        "design_ref": "DESIGN.md §5 C19",
+        "note": "Engine level. NOT claimed: the actor-side timers that call on_tick, the io_uring worker, placement of the PONG in the egress buffer (see C01's EgressBuffer check), encrypted links.",
+    },
+    "outside": "actor timers, io_uring backend, encrypted framers",
+}
+
 HOOK_COMMITS = ["e6aec85"]
 
 NOT_APPLICABLE = {
     "C01": "not claimed yet (machinery under construction)",
-    "C04": "not claimed yet (machinery under construction)",
     "C05": "not claimed yet (machinery under construction)",
     "C08": "not claimed yet (machinery under construction)",
     "C09": "not claimed yet (machinery under construction)",
@@ -174,7 +214,6 @@ NOT_APPLICABLE = {
     "C15": "LINGER is a multi-actor shutdown protocol over tokio timers, mailboxes and kernel socket buffers; out of reach of solver-based checking of functions (DESIGN.md §5 C15)",
     "C16": "not claimed yet (machinery under construction)",
     "C18": "not claimed yet (machinery under construction)",
-    "C19": "not claimed yet (machinery under construction)",
     "C20": "backend equivalence and kernel-object lifecycles (io_uring rings, fds) cannot be encoded; handlers need a live IoUring (DESIGN.md §5 C20)",
 }
 
